@@ -56,9 +56,12 @@ def gen_config(rng, run_index, j):
         cfg["imputer"] = wchoice(rng, [("marginal-joint", 35), ("marginal-product", 35), ("default", 10), (None, 20)])
         if ek is None and cfg["imputer"] is None:
             cfg["imputer"] = "marginal-product"
+    if kind != "tree" and rng.random() < 0.25:
+        cfg["model"] = "riverlabel"      # the real RiverWrapper around a label-predicting model (one-hot outputs)
+        cfg["dynamic"] = rng.random() < 0.4
     if cfg.get("explainer") and kind != "tree" and rng.random() < 0.25:
         cfg["default_storage"] = True       # documented defaults: the explainer creates its own storage and imputer
-    cfg["dynamic"] = rng.random() < 0.6
+    cfg.setdefault("dynamic", rng.random() < 0.6)
     cfg["alpha"] = rng.choice([0.001, 0.1, 0.5, 1.0])
     cfg["n_inner"] = rng.randint(1, 3)
     return cfg
